@@ -105,6 +105,36 @@ Example C02_is_compatible_placement_example :
   /\ is_compatible ex_model ex_circ (Some [0; 2]) = Some false /\ spec ex_model ex_circ [0; 2] = false.
 Proof. exact is_compatible_placement_example. Qed.
 
+(* The code as it is since repo commit 3be8a2b (finding C02-F5 repaired): placeholders are set aside, exactly as the
+   property says ("measurement, barrier and reset placeholders aside") - for every circuit, model, placement and
+   placeholder predicate the verdict is the independent check on the circuit without its placeholders. *)
+Theorem C02_is_compatible_placeholders_aside : forall ph m c opl b,
+  is_compatible_ph ph m c opl = Some b -> b = spec m (strip ph c) (placement_of c opl).
+Proof. exact is_compatible_ph_spec. Qed.
+
+Theorem C02_is_compatible_ph_total : forall ph m c opl,
+  wf_pl m c (placement_of c opl) = true -> wf_circ c = true -> exists b, is_compatible_ph ph m c opl = Some b.
+Proof. exact is_compatible_ph_total. Qed.
+
+Theorem C02_is_compatible_ph_conservative : forall m c opl,
+  is_compatible_ph (fun _ => false) m c opl = is_compatible m c opl.
+Proof. exact is_compatible_ph_none. Qed.
+
+Example C02_is_compatible_ph_example :
+  let ph := fun g => (g =? 8) || (g =? 9) in
+  let ops := [{| og := 0; oloc := [0; 1] |}; {| og := 9; oloc := [0; 1; 2] |}; {| og := 8; oloc := [2] |}] in
+  is_compatible_ph ph ex_model {| cw := 3; crad := [2; 2; 2]; cops := ops |} None = Some true
+  /\ is_compatible_ph ph ex_model {| cw := 3; crad := [2; 2; 2]; cops := ops ++ [{| og := 0; oloc := [0; 2] |}] |} None = Some false
+  /\ is_compatible_ph ph ex_model {| cw := 3; crad := [2; 2; 2]; cops := ops ++ [{| og := 0; oloc := [0; 2] |}] |} (Some [1; 0; 2]) = Some true.
+Proof. exact is_compatible_ph_example. Qed.
+
+(* regression witness: the code before 3be8a2b (no placeholder case) rejected an executable circuit with a barrier *)
+Example C02_is_compatible_placeholder_old_refuted :
+  let c := {| cw := 2; crad := [2; 2]; cops := [{| og := 0; oloc := [0; 1] |}; {| og := 9; oloc := [0; 1] |}] |} in
+  is_compatible ex_model c None = Some false /\ spec ex_model (strip (Nat.eqb 9) c) [0; 1] = true
+  /\ is_compatible_ph (Nat.eqb 9) ex_model c None = Some true.
+Proof. exact is_compatible_placeholder_old_refuted. Qed.
+
 Theorem C02_is_compatible_total : forall m c opl,
   wf_pl m c (placement_of c opl) = true -> wf_circ c = true -> exists b, is_compatible m c opl = Some b.
 Proof. exact is_compatible_total. Qed.
